@@ -149,15 +149,40 @@ def _silence():
     logging.disable(logging.CRITICAL)
 
 
+class HangError(BaseException):
+    """the real code blocked: every run simulates all waiting (virtual clock, scripted selector), so a case that
+       consumes this much wall-clock time is stuck (e.g. a deadlock on the session's write lock)"""
+
+
+ITEM_DEADLINE = float(os.environ.get('VERIF_ITEM_DEADLINE', '45'))
+_deadline = [ITEM_DEADLINE]     # after the first hang in a worker process the following cases get 5 s
+
+
+def _on_alarm(signum, frame):
+    d = _deadline[0]
+    _deadline[0] = 5.0
+    raise HangError('no progress for %.0f s of wall-clock time' % d)
+
+
 def _worker(args):
     modname, fname, items = args
     _silence()
     mod = importlib.import_module(modname)
     fn = getattr(mod, fname)
     out = []
+    import signal, threading
+    guard = threading.current_thread() is threading.main_thread() and not getattr(fn, 'no_deadline', False)
     for it in items:
         try:
-            out.append(fn(it))
+            if guard:
+                old = signal.signal(signal.SIGALRM, _on_alarm)
+                signal.setitimer(signal.ITIMER_REAL, _deadline[0])
+            try:
+                out.append(fn(it))
+            finally:
+                if guard:
+                    signal.setitimer(signal.ITIMER_REAL, 0)
+                    signal.signal(signal.SIGALRM, old)
         except BaseException as e:  # noqa - report, never die silently
             out.append({'__crash__': '%s: %s' % (type(e).__name__, e), 'tb': traceback.format_exc()[-1500:]})
     return out
